@@ -899,6 +899,16 @@ func (fx *fctx) evalAddrOf(st *State, x *ast.UnaryExpr) *Value {
 			return &Value{T: t, Tm: st.vars[obj].Tm}
 		}
 		if obj != nil && fx.isGlobal(obj) {
+			if e.isOpaqueStruct(obj.Type()) {
+				// a package-level object of a type declared elsewhere (sync.Pool, sync.Mutex, ...): an opaque handle that
+				// existed before the call
+				h := e.ts.Var("gaddr."+globalName(obj), SInt)
+				st.assume(e.ts.Gt(h, e.ts.Int(0)))
+				if fx.preParamAlloc != nil {
+					st.assume(e.ts.Lt(h, fx.preParamAlloc))
+				}
+				return &Value{T: t, Tm: h}
+			}
 			e.unsup(x, "address of global %s", obj.Name())
 		}
 		e.unsup(x, "address of non-boxed variable %s", y.Name)
